@@ -22,14 +22,17 @@ EXPLANATION = ("explain_many / explain_many_original: with N = len(x_data) = len
                "x_data, N * sum(importance values) = BSUM(N) = sum_i (L(y_i, mp) - L(y_i, M(x_i))) - outer-loop invariant over prefix sums "
                "(ghost PS), inner chain loop telescoping to the model's own loss (the last step imputes nothing; original mode: the last "
                "model input agrees with x_i on every explained feature, side condition: the model reads only explained features); the "
-               "division is by N. IntervalSage.explain_one: seen+1; storage updated iff update_storage; if not forced and seen' mod "
+               "division is by N. Per feature (both modes): ghost log CS of the per-observation chain contributions (chain loop ghost MC[f] = "
+               "loss before f joined - loss after; invariant mc_credit: sage_values[f] = value at chain entry + MC[f], nothing else is "
+               "credited), outer invariant sage_values[f] = sum_{i<m} CS[i][f] (column sums, Lean ssum_succ / ssum_congr), postcondition "
+               "per_feature_average: importance[f] * N = sum_i CS[i][f]. IntervalSage.explain_one: seen+1; storage updated iff update_storage; if not forced and seen' mod "
                "interval_length != 0 the previous values are returned unchanged and model/loss/imputer are not called; otherwise "
                "explain_many runs on exactly the storage view, which by the IntervalStorage invariant is the last storage_length "
                "observations in arrival order. BatchSage.explain_one = storage update, then explain over the whole view.")
 ASSUMPTIONS = ["A1 floats as reals; A2 deterministic model/loss; imputer interface contract", "len(y_data) = len(x_data) >= 1 (targets stored)",
                "original mode: the explained feature names cover every feature the model reads and every row has them",
-               "the per-feature clause 'each value is the average over observations of that feature's chain contribution' is covered by the "
-               "telescoping inner invariant plus the bounded stand-in (per-feature averages recomputed independently), not by a separate ghost"]
+               "the per-feature clause is stated over a ghost log CS of per-observation contribution dicts: CS[i][f] is DEFINED as "
+               "(loss before f joined the coalition in observation i's chain) - (loss after), recorded by the chain loop's ghost MC"]
 TRUSTED_BASE = ["lean 4.33 + Mathlib (msum_scale, msum_zero, msum_update)", "the model applied to a list returns the list of its single-instance outputs"]
 LEVEL_TEXT = ("Deductive proof over the real BatchSage/IntervalSage source of the efficiency identity (nested loop invariants with ghost "
               "prefix sums) and of the interval schedule, for every data set, n_inner, interval/storage length, interleaving of forced and "
